@@ -395,6 +395,10 @@ class Library:
                 else:
                     return Opaque('msg')
             return Sym(z3.Concat(*ts)) if len(ts) > 1 else Sym(ts[0])
+        flat = []
+        for p in parts:
+            flat.extend(p.parts if isinstance(p, PartialLabel) else [p])
+        parts = flat
         has_uuid = any(isinstance(p, UuidHex) for p in parts)
         has_label = any(isinstance(p, Sym) and p.is_label() for p in parts)
         if has_uuid:
@@ -403,7 +407,7 @@ class Library:
         if any(isinstance(p, DigitStr) for p in parts) and all(isinstance(p, (str, DigitStr)) for p in parts):
             return NumberedLabel(tuple(parts)).to_sym(it)
         if has_label and not formatted:
-            raise Unsupported('label concatenation (needs string-structured labels)')
+            return PartialLabel(parts)
         return Opaque('msg')
 
     def str_to_int(self, x, base):
@@ -804,6 +808,14 @@ class Library:
 
 class UuidHex:
     pass
+
+
+class PartialLabel:
+    """string built from label pieces that is not (yet) a label of its own: becomes an arbitrary label once a
+    uuid suffix is appended; any other use is outside the subset"""
+
+    def __init__(self, parts):
+        self.parts = list(parts)
 
 
 def _reduce_symbolic(it, f, seq, init):
